@@ -365,4 +365,35 @@ PROPS = {
                 "vipnode_connect; distinct by rendered term",
         "trusted": [],
     },
+    "C17": {
+        "harness": "c17",
+        "imports": ["Base", "Codec", "Check17"],
+        "case_type": "c17_case",
+        "check": "c17_check",
+        "mismatch_is_violation": True,
+        "theories": ["theories/Base.v", "theories/Codec.v", "theories/CodecProofs.v"],
+        "check_theories": ["theories/Check17.v"],
+        "level_text": "Coq theorems: for any self-delimiting framing (a value is complete exactly at its last byte) a "
+                      "decoder that lives as long as the connection returns, for every way of cutting the byte stream "
+                      "of a message sequence into reads, exactly those messages, once each, in order, with nothing left "
+                      "over (induction over the reads with the invariant 'buffer ++ unread = encoding of the unread "
+                      "messages'); the framing the stream codec writes (compact JSON + newline) satisfies the "
+                      "hypotheses; a decoder created per ReadMessage is refuted by two coalesced messages; frame "
+                      "codecs are one message per frame; writers holding the write lock for a whole message never "
+                      "interleave bytes. Tied to the code by writing message sequences with the real jsonCodec, "
+                      "re-chunking the bytes by scripted partitions (coalesced, byte-wise, random, single cut, "
+                      "boundary+1) and reading them back with the real ReadMessage, compared in-kernel with the "
+                      "model's decoding; gorilla (8 concurrent writers), gobwas and HTTP round trips run through a "
+                      "re-chunking TCP proxy.",
+        "level_note": "Trusted: Coq kernel; where a JSON value ends is encoding/json's decision (abstract scanner); one "
+                      "Write per message on net.Conn is atomic with respect to other writers (checked: exactly one "
+                      "Write call per message); websocket framing libraries.",
+        "technique": "Coq proof (induction over chunkings for an abstract framing + concrete instance) + vm_compute "
+                     "correspondence with the real stream codec + proxy runs for WebSocket/HTTP codecs",
+        "rule": "sequences of 1-6 messages (requests, results, errors; empty / unicode+escapes / nested / 1-60 byte and, "
+                "every tenth case, 1-200 KB strings / mixed scalars), five partition modes; streams up to 1500 bytes "
+                "are also evaluated in Coq, longer ones by the monitor only; 3 gorilla, 3 gobwas, 3 HTTP proxy runs; "
+                "distinct by rendered term / description",
+        "trusted": [],
+    },
 }
